@@ -1,12 +1,155 @@
-/-! Model for property C05 (core-only: no Mathlib import, so the driver links). -/
+import OnetVerif.Model.Util
+/-! Model for property C05: the per-instance message queue, its single reader goroutine and the
+1-buffered wake-up channel (`treenode.go`: `ProcessProtocolMsg` 498-510, `notifyDispatch` 512-520,
+`dispatchMsgReader` 522-553, `closeDispatch` 358-371).  One `Act` per critical section of the
+source: `accept m` is the whole of `ProcessProtocolMsg` (one mutex region), `reader` one step of the
+reader goroutine, `close` is `closeDispatch`.  Handlers are opaque: entering and leaving one are the
+reader's `top → handling m` and `handling m → top` steps.  Core-only. -/
 namespace C05
 
+inductive RPc where
+  | top                 -- about to lock and look at the queue
+  | handling (m : Nat)  -- inside dispatchMsgToProtocol for m
+  | waiting             -- blocked on msgDispatchQueueWait
+  | stopped
+  deriving DecidableEq, Repr
+
+structure St where
+  queue    : List Nat := []
+  token    : Bool := false
+  closing  : Bool := false
+  pc       : RPc := .top
+  accepted : List Nat := []   -- ghost: acceptance order
+  started  : List Nat := []   -- ghost: handler-enter order
+  finished : List Nat := []   -- ghost: handler-exit order
+  deriving Repr
+
+inductive Act where
+  | accept (m : Nat)   -- ProcessProtocolMsg under the mutex (atomic)
+  | reader             -- one step of dispatchMsgReader
+  | close              -- closeDispatch
+  deriving Repr
+
+def step (s : St) : Act → Option St
+  | .accept m =>
+      if s.closing then some s
+      else some { s with queue := s.queue ++ [m], token := true, accepted := s.accepted ++ [m] }
+  | .close => some { s with closing := true, token := true }  -- closed channel is always readable
+  | .reader =>
+      match s.pc with
+      | .top =>
+          if s.closing then some { s with pc := .stopped }
+          else match s.queue with
+            | m :: q => some { s with queue := q, pc := .handling m, started := s.started ++ [m] }
+            | [] => some { s with pc := .waiting }
+      | .handling m => some { s with pc := .top, finished := s.finished ++ [m] }
+      | .waiting => if s.token then some { s with pc := .top, token := s.closing } else none
+      | .stopped => none
+
+def run (s : St) : List Act → Option St
+  | [] => some s
+  | a :: as => match step s a with
+      | some s' => run s' as
+      | none => run s as   -- a blocked thread simply does not move
+
+/-- several instances on one server: the overlay hands a message over with `accept` on the
+addressed instance only (`overlay.go:216-219`, `pi.ProcessProtocolMsg`), every instance has its own
+reader goroutine -/
+abbrev Server := Nat → St
+
+inductive SAct where
+  | at (i : Nat) (a : Act)
+
+def sstep (s : Server) : SAct → Option Server
+  | .at i a => (step (s i) a).map fun t => fun j => if j = i then t else s j
+
 namespace Drv
-/-- line-protocol driver state for C05 -/
-abbrev State := Unit
-def init : State := ()
-/-- one line in (tokens after the property prefix), new state and one line out -/
-def step (s : State) (_toks : List String) : State × String := (s, "bad-op")
+
+structure State where
+  srv : List (Nat × St) := []
+
+def init : State := {}
+
+def get (s : State) (i : Nat) : St := (s.srv.lookup i).getD {}
+def set (s : State) (i : Nat) (t : St) : State := { srv := (i, t) :: s.srv.filter (fun p => p.1 != i) }
+
+/-- let the reader goroutine of an instance run its internal steps (wake up from waiting, look at
+the queue) until it enters a handler or blocks; fuel bounds the loop (two steps suffice) -/
+def settle : Nat → St → St
+  | 0, t => t
+  | n + 1, t =>
+    match t.pc with
+    | .handling _ => t
+    | .stopped => t
+    | _ => match step t .reader with
+      | none => t
+      | some t' => settle n t'
+
+def showPc (t : St) : String :=
+  match t.pc with
+  | .handling m => s!"in:{m}"
+  | .stopped => "idle"   -- a stopped reader cannot be told from an idle one from outside
+  | .waiting => "idle"
+  | .top => "idle"
+
+/-- `accept <inst> <m>`: hand message m over; `exit <inst>`: the running handler returns; `close
+<inst>`.  After each, the reader runs until it is inside a handler or has nothing to do; the reply
+is what the instance is doing then: `in:<m>`, `idle` or `stopped`. -/
+def step (s : State) (toks : List String) : State × String :=
+  match toks with
+  | ["accept", i, m] =>
+    match i.toNat?, m.toNat? with
+    | some i, some m =>
+      match C05.step (get s i) (.accept m) with
+      | some t => let t := settle 4 t; (set s i t, showPc t)
+      | none => (s, "blocked")
+    | _, _ => (s, "bad-op")
+  | ["exit", i] =>
+    match i.toNat? with
+    | some i =>
+      let t := get s i
+      match t.pc with
+      | .handling _ =>
+        match C05.step t .reader with
+        | some t => let t := settle 4 t; (set s i t, showPc t)
+        | none => (s, "blocked")
+      | _ => (s, "no-handler")
+    | none => (s, "bad-op")
+  | ["close", i] =>
+    match i.toNat? with
+    | some i =>
+      match C05.step (get s i) .close with
+      | some t => let t := settle 4 t; (set s i t, showPc t)
+      | none => (s, "blocked")
+    | none => (s, "bad-op")
+  | ["storm", _, _, _] => ({}, "ok")
+  -- trace validation of runs scheduled by the Go runtime: one line per observed event
+  | ["ev-accept", i, m] =>
+    match i.toNat?, m.toNat? with
+    | some i, some m =>
+      match C05.step (get s i) (.accept m) with
+      | some t => (set s i t, "ok")
+      | none => (s, "blocked")
+    | _, _ => (s, "bad-op")
+  | ["ev-enter", i] =>
+    match i.toNat? with
+    | some i =>
+      let t := settle 4 (get s i)
+      (set s i t, match t.pc with | .handling m => toString m | _ => "none")
+    | none => (s, "bad-op")
+  | ["ev-exit", i] =>
+    match i.toNat? with
+    | some i =>
+      let t := get s i
+      match t.pc with
+      | .handling m =>
+        match C05.step t .reader with
+        | some t => (set s i t, toString m)
+        | none => (s, "blocked")
+      | _ => (s, "none")
+    | none => (s, "bad-op")
+  | _ => (s, "bad-op")
+
 end Drv
 
 end C05
